@@ -8,11 +8,15 @@ using namespace hz;
 
 namespace {
 
-struct CellRec { unsigned id; int type; std::vector<V3> force; std::vector<V3> pos; std::vector<char> used; std::vector<std::array<unsigned, 3>> tri; std::vector<char> fused; double volume, pressure, target; };
+struct CellRec { unsigned id; int type; std::vector<V3> force; std::vector<V3> pos; std::vector<char> used; std::vector<std::array<unsigned, 3>> tri; std::vector<char> fused; double volume, pressure, target; std::vector<V3> nn; std::vector<double> curv, sqd; std::vector<long> cpl; };
 typedef std::vector<CellRec> PopRec;
 
 static PopRec record(const std::vector<cell_ptr>& L) {
-    PopRec r; for (auto& c : L) { CellRec q; q.id = c->get_id(); q.type = c->get_cell_type_id(); CellView v = view_of(*c); q.pos = v.pos; for (auto& n : cell_tester::nodes(*c)) q.force.push_back(V3(n.force())); q.used = v.nused; q.tri = v.tri; q.fused = v.fused; q.volume = c->get_volume(); q.pressure = c->get_pressure(); q.target = c->get_target_volume(); r.push_back(q); }
+    PopRec r; for (auto& c : L) { CellRec q; q.id = c->get_id(); q.type = c->get_cell_type_id(); CellView v = view_of(*c); q.pos = v.pos; for (auto& n : cell_tester::nodes(*c)) q.force.push_back(V3(n.force())); q.used = v.nused; q.tri = v.tri; q.fused = v.fused; q.volume = c->get_volume(); q.pressure = c->get_pressure(); q.target = c->get_target_volume();
+#if CONTACT_MODEL_INDEX == 1
+        if (getenv("W14_TRACE")) for (auto& n : cell_tester::nodes(*c)) { q.nn.push_back(V3(cell_tester::nnormal(n))); q.curv.push_back(cell_tester::curvature(n)); q.sqd.push_back(cell_tester::sqd(n)); auto& cp = cell_tester::coupled(n); q.cpl.push_back(cp ? (long)cp->first * 100000 + cp->second : -1); }
+#endif
+        r.push_back(q); }
     return r;
 }
 
@@ -61,6 +65,7 @@ static std::string compare(const std::vector<PopRec>& A, const std::vector<PopRe
             if (a.tri.size() != b.tri.size() || a.pos.size() != b.pos.size()) { e << "cell " << a.id << ": mesh size differs (" << a.pos.size() << " vs " << b.pos.size() << " node slots)"; return e.str(); }
             for (size_t f = 0; f < a.tri.size(); f++) if (a.fused[f] != b.fused[f] || (a.fused[f] && a.tri[f] != b.tri[f])) { e << "cell " << a.id << ": connectivity differs at face " << f; return e.str(); }
             for (size_t n = 0; n < a.pos.size(); n++) { if (a.used[n] != b.used[n]) { e << "cell " << a.id << ": node liveness differs"; return e.str(); } if (a.used[n]) { double d = (b.pos[n] - t - a.pos[n]).norm(); if (!(d <= tolx)) { e << "cell " << a.id << " node " << n << ": translated run is off by " << d << " (tolerance " << tolx << ", |t|=" << tn << ", L=" << L << ")"; return e.str(); } } }
+            if (getenv("W14_TRACE") && !a.cpl.empty()) for (size_t n = 0; n < a.pos.size(); n++) if (a.used[n]) { if (a.cpl[n] != b.cpl[n]) { e << "cell " << a.id << " node " << n << ": COUPLING differs " << a.cpl[n] << " (sqd " << a.sqd[n] << ") vs " << b.cpl[n] << " (sqd " << b.sqd[n] << ")"; for (int w = 0; w < 2; w++) { const PopRec& P = w ? B[i] : A[i]; long c1 = a.cpl[n], c2 = b.cpl[n]; V3 p1 = P[c1 / 100000].pos[c1 % 100000], p2 = P[c2 / 100000].pos[c2 % 100000], x = P[c].pos[n]; char buf[400]; snprintf(buf, sizeof buf, " | run%c p1-p2=(%.3g,%.3g,%.3g) d1^2=%.17g d2^2=%.17g cpl1=%ld cpl2=%ld", w ? 'B' : 'A', p1.x - p2.x, p1.y - p2.y, p1.z - p2.z, (x - p1).n2(), (x - p2).n2(), P[c1 / 100000].cpl[c1 % 100000], P[c2 / 100000].cpl[c2 % 100000]); e << buf; } return e.str(); } if (std::fabs(a.curv[n] - b.curv[n]) > 1e-6 * std::fabs(a.curv[n]) || (a.nn[n] - b.nn[n]).norm() > 1e-6) { e << "cell " << a.id << " node " << n << ": CURV/NORMAL differs " << a.curv[n] << " vs " << b.curv[n] << " dn " << (a.nn[n] - b.nn[n]).norm(); return e.str(); } }
             if (getenv("W14_TRACE")) { double fm = 0; for (size_t n = 0; n < a.pos.size(); n++) if (a.used[n]) fm = std::max(fm, a.force[n].norm()); for (size_t n = 0; n < a.pos.size(); n++) if (a.used[n] && (a.force[n] - b.force[n]).norm() > 1e-6 * fm) { e << "cell " << a.id << " node " << n << ": FORCE differs " << a.force[n].norm() << " vs " << b.force[n].norm() << " diff " << (a.force[n] - b.force[n]).norm() << " (max " << fm << ")";
                 for (int w = 0; w < 2; w++) { const PopRec& P = w ? B[i] : A[i]; V3 x = P[c].pos[n]; for (size_t c2 = 0; c2 < P.size(); c2++) if (c2 != c) { CellView v; v.pos = P[c2].pos; v.nused = P[c2].used; v.tri = P[c2].tri; v.fused = P[c2].fused; V3 q; int fi; double d = dist_to_mesh(v, x, &q, &fi); double dn = 1e300; for (size_t m = 0; m < v.pos.size(); m++) if (v.nused[m]) dn = std::min(dn, (v.pos[m] - x).norm()); char buf[200]; snprintf(buf, sizeof buf, " | run%c other cell %u: dist to surface %.6g (face %d) nearest node %.6g inside=%d", w ? 'B' : 'A', P[c2].id, d, fi, dn, (int)point_inside(v, x)); e << buf; } }
                 return e.str(); } }
@@ -104,7 +109,13 @@ RunResult run_w14(const Plan& pl) {
         res.probes.hit("first_mismatch");
         std::vector<PopRec> C = execute(pl, t2, res, false);
         std::string e2 = compare(A, C, t2, L, 2.5e3, at2);
-        if (!e2.empty()) { std::ostringstream d; d << "after iteration " << at1 << " with translation (" << t1.x << "," << t1.y << "," << t1.z << "): " << e1 << "; confirmed with an independent translation of the same class after iteration " << at2 << ": " << e2; res.fail("C14", "translation", d.str()); }
+        // "to rounding accuracy": a trajectory in which a discrete decision hangs on the last bits (an exact tie between two
+        // coupling partners at a junction of three cells, say) cannot be judged. Such a trajectory also diverges from itself
+        // when the input is re-rounded, i.e. moved by ~1e-12 L (thousands of ulps, far below any tolerance of the code).
+        bool unstable = false;
+        if (!e2.empty()) { sim::Rng rp((uint64_t)pl.get("shift_seed", 1) * 31 + 7); for (int k = 0; k < 8 && !unstable; k++) { V3 tp = random_unit(rp) * (1e-12 * L * rp.uni(0.5, 2)); std::vector<PopRec> P = execute(pl, tp, res, false); size_t atp = 0; if (!compare(A, P, tp, L, 2.5e3, atp).empty() && atp <= std::max(at1, at2)) unstable = true; } }
+        if (unstable) { res.probes.hit("rounding_unstable_discarded"); res.nontrivial = false; }
+        else if (!e2.empty()) { std::ostringstream d; d << "after iteration " << at1 << " with translation (" << t1.x << "," << t1.y << "," << t1.z << "): " << e1 << "; confirmed with an independent translation of the same class after iteration " << at2 << ": " << e2; res.fail("C14", "translation", d.str()); }
         else res.probes.hit("mismatch_not_confirmed");
     }
     return res;
